@@ -42,7 +42,7 @@ ASSUMPTIONS = ["'BitTorrent-shaped' and 'IPv8-shaped' are read from the property
                "once the outside socket is open, data cells from other IPs that carry the right keys are not restricted by the "
                "statement (only the *opening* is)"]
 REACH = ["emitted_allowed", "blocked_forbidden_outbound", "blocked_forbidden_inbound", "inbound_tunnelled_allowed",
-         "null_destination_dropped", "domain_resolved", "domain_failed", "ipv6_emitted", "colluder_refused", "queued_before_open", "null_destination_as_host_name", "reentry_through_own_circuit",
+         "null_destination_dropped", "domain_resolved", "domain_failed", "ipv6_emitted", "colluder_refused", "queued_before_open", "null_destination_as_host_name", "reentry_through_own_circuit", "lookalike_twins_back_to_back",
          "flagset:0", "flagset:bt", "flagset:ipv8", "flagset:bt+ipv8"]
 
 BT, IPV8F, RELAY, SPEED = 2, 4, 1, 8
@@ -276,12 +276,26 @@ def execute(case: dict) -> dict:  # noqa: C901, PLR0915
         for p in st["canaries"]:
             o.call(o.ov.send_data, circ.hop.address, circ.circuit_id, dests[0], ("0.0.0.0", 0), p)
         await asyncio.sleep(1.0)
+        # --- look-alike twins, back to back: an allowed packet directly followed by a forbidden one with the same first 23 bytes and the
+        # same length (a bencoded query and the same bytes with a broken end; a tracker connect and the same header with another action)
+        twins = []
+        q = b"d1:ad2:id20:" + bytes(range(65, 85)) + b"e1:q4:ping1:t2:aa1:y1:qe"
+        twins.append((q, q[:-1] + b"x"))
+        q2 = b"d1:rd2:id20:" + bytes(range(97, 117)) + b"e1:t2:bb1:y1:re"
+        twins.append((q2, q2[:-2] + b"zz"))
+        st["twins"] = twins
+        for good_p, bad_p in twins:
+            for _ in range(2):
+                o.call(o.ov.send_data, circ.hop.address, circ.circuit_id, dests[0], ("0.0.0.0", 0), good_p)
+                o.call(o.ov.send_data, circ.hop.address, circ.circuit_id, dests[0], ("0.0.0.0", 0), bad_p)
+            world.probe("lookalike_twins_back_to_back")
+        await asyncio.sleep(1.0)
         # --- inbound sweep: the outside world talks to whatever sockets the exit has open
         outs = [t for t in net.all_transports if t.owner == x.name and t.port != x.port and not t.closed]
         st["exit_ports"] = {t.port for t in outs}
         k = 0
         for t in outs:
-            for p in payloads:
+            for p in [x for pair in st["twins"] for x in (pair[0], pair[1], pair[0], pair[1])] + payloads:
                 k += 1
                 if t.family == 10 or ":" in str(t.addr[0]):
                     net.inject(("2001:db8::9", 7000), t.addr, p, delay=0.001 + k * 1e-5, label="outside")
